@@ -15,6 +15,9 @@
 EXTENDS Naturals, Sequences, FiniteSets, TLC
 
 CONSTANTS Pools, MaxDepth, MaxOps, MaxHandlers,
+          BadPools,   \* subset of Pools whose join() raises when the handler closes them (a lost worker,
+                      \* a pool-like object without join): leaving the block then raises *that* error,
+                      \* and the instance must be restored all the same
           PoolOpts,   \* subset of BOOLEAN \X BOOLEAN \X BOOLEAN: <<close_pool, parallelize_prior, pool given>>
           AutoOpts    \* subset of Paths \X {1, 3} \X BOOLEAN:     <<path, every, save_config>>
 
@@ -82,7 +85,7 @@ PopTop(st, l, p, d, cl, jn) ==
   IF top.kind = "pool"
     THEN [L |-> top.origL, P |-> top.origP, d |-> d,
           cl |-> IF top.close THEN [cl EXCEPT ![top.pool] = @ + 1] ELSE cl,
-          jn |-> IF top.close THEN [jn EXCEPT ![top.pool] = @ + 1] ELSE jn]
+          jn |-> IF top.close /\ top.pool \notin BadPools THEN [jn EXCEPT ![top.pool] = @ + 1] ELSE jn]
     ELSE [L |-> l, P |-> p, d |-> top.prev, cl |-> cl, jn |-> jn]
 
 RECURSIVE Unwind(_, _, _, _, _, _, _)
